@@ -406,6 +406,7 @@ struct timespec* sentTime) {
       }
     }
     clockGettime(&m_lastSynReceiveTime);
+    m_crc = 0;  // not reset by setState() when already in ready state, e.g. after a single escape symbol
     return setState(bs_ready, m_state == bs_skip || m_remainLockCount > 0 ? result : RESULT_ERR_SYN);
   }
 
